@@ -540,7 +540,7 @@ def check_branch(acc, store, dag, ghosts, tip, others):
 def _work(chunk):
     from mc import world as mw
     dw.quiet_trace()
-    acc = par.Acc()
+    acc = dw.Acc()
     for dag, ghosts in chunk:
         n = len(dag)
         ref = dw.Ref(dag, ghosts)
